@@ -11,7 +11,7 @@ from checks import parsegen
 from checks import probe_common as pc
 
 THEOREMS = ["C02_backends_agree", "C02_ssr_text", "C02_lit_wrapper", "C02_scope_transparent", "C02_scope_chain",
-            "C02_arm_select", "C02_defaulted_agree", "C02_defaulted_literal", "C02_effective_is_walk", "C02_defaulted_config", "C02_ranges_agree",
+            "C02_arm_select", "C02_defaulted_agree", "C02_defaulted_literal", "C02_effective_is_walk", "C02_defaulted_config", "C02_ranges_agree", "C02_plurals_agree",
             "C02_spec"]
 THEOREMS_C01B = ["C01_codegen_view", "C01_codegen_string", "C01_tuple_order", "C01_tuple_order_eval", "C01_flatten_atoms",
                  "C01_tuple_width", "C01_either_exists", "C01_either_in_range", "C01_either_injective"]
@@ -53,7 +53,16 @@ def coq_cond(c):
                               "None" if hi is None else "(Some (%s, %s))" % (z2(hi), "true" if incl else "false"))
 
 
+FORM_COQ = {"zero": "Plurals.Zero", "one": "Plurals.One", "two": "Plurals.Two", "few": "Plurals.Few", "many": "Plurals.Many"}
+FORM_CODE = {"zero": 0, "one": 1, "two": 2, "few": 3, "many": 4, "other": 5}
+
+
 def coq_src(value):
+    if value[0] == "plural":
+        pair = lambda items: "(%s, %s)" % (parsegen.coq_items(items), core.coq_str(parsegen.print_items(items)))
+        forms = ["(%s, %s)" % (FORM_COQ[f], pair(items)) for f, items in value[2].items() if f != "other"]
+        return "(SrcPlural %s %s %s)" % ("Plurals.Ordinal" if value[1] else "Plurals.Cardinal", core.coq_list(forms),
+                                         pair(value[2]["other"]))
     if value[0] == "range":
         arms = ["(%s, (%s, %s))" % (core.coq_list([coq_cond(c) for c in conds]), parsegen.coq_items(items),
                                     core.coq_str(parsegen.print_items(items))) for items, conds in value[2]]
@@ -80,17 +89,21 @@ def coq_tables(tag, project):
     return "\n".join(out) + "\n"
 
 
-def coq_case(tag, project, key, loc, a, flavours):
+def coq_case(tag, project, key, loc, a, flavours, oracle):
     env = pc.env_of(key, a)
+    lang = pc.LANGS.index(loc.split("-")[0]) if loc.split("-")[0] in pc.LANGS else 0
+    icu = 6
+    if key.plural:
+        icu = FORM_CODE.get(oracle.get((loc, key.plural, pc.count_of(key, a))), 7)
     vs = core.coq_list(["(%s, %s)" % (core.coq_str("var_" + v), core.coq_str(env[v])) for v in sorted(env)])
     cs = core.coq_list(["(%s, %s)" % (core.coq_str("comp_" + c), core.coq_str(key.tags[c])) for c in key.comps])
     so = [t for f, t in sorted(flavours.items()) if f.split(":")[-1] not in pc.VIEW_FLAVOURS]
     vo = [t for f, t in sorted(flavours.items()) if f.split(":")[-1] in pc.VIEW_FLAVOURS]
     # identical outputs are listed once: the case term stays small and every distinct answer is still judged
     so, vo = sorted(set(so)), sorted(set(vo))
-    return "(mk_case K_%s_%d INH_%s %d %d %s %s %s %s %s)" % (
+    return "(mk_case K_%s_%d INH_%s %d %d %s %d %d %s %s %s %s)" % (
         tag, key.id, tag, len(project.locales), project.locales.index(loc),
-        z2(pc.count_of(key, a)) if key.range_type else "0%Z", vs, cs, core.coq_list([core.coq_str(x) for x in so]),
+        z2(pc.count_of(key, a)) if (key.range_type or key.plural) else "0%Z", lang, icu, vs, cs, core.coq_list([core.coq_str(x) for x in so]),
                                          core.coq_list([core.coq_str(x) for x in vo]))
 
 
@@ -110,6 +123,8 @@ def expected_flavours(key):
 def source_text(v):
     if v[0] in ("absent", "null"):
         return v[0]
+    if v[0] == "plural":
+        return json.dumps({("ordinal_" if v[1] else "") + f: parsegen.print_items(i) for f, i in v[2].items()}, ensure_ascii=False)
     return v[1] if v[0] == "lit" else json.dumps(pc.range_json(v), ensure_ascii=False) if v[0] == "range" else parsegen.print_items(v[1])
 
 
@@ -118,6 +133,8 @@ def size_of(value):
         return 1
     if value[0] == "range":
         return 5 + sum(size_of(("str", items)) for items, _ in value[2])
+    if value[0] == "plural":
+        return 5 + sum(size_of(("str", items)) for items in value[2].values())
     return 1 + parsegen.count_nodes(value[1]) + len(parsegen.print_items(value[1]))
 
 
@@ -134,18 +151,19 @@ def probe(ctx, tag, project, assignments=2):
     res = pc.run_probe(exe)
     items, meta, problems = [], [], []
     pre = coq_tables(tag, project)
+    oracle = res.get("__plural_oracle__", {})
     for key in project.keys:
         want = set(expected_flavours(key))
         for loc in project.locales:
-            for a in range(assignments):
+            for a in range(key.assignments):
                 fl = res.get((key.id, a, loc))
                 if fl is None or set(fl) != want:
                     problems.append({"what": "probe output incomplete", "crate": tag, "key": ".".join(key.path), "locale": loc,
                                      "missing": sorted(want - set(fl or {}))[:5]})
                     continue
-                if a > 0 and not key.vars and not key.range_type:
+                if a > 0 and not key.vars and not key.range_type and not key.plural:
                     continue            # no argument: the second assignment is the same observation
-                items.append(coq_case(tag, project, key, loc, a, fl))
+                items.append(coq_case(tag, project, key, loc, a, fl, oracle))
                 eff = pc.effective_locale(project, key, loc)
                 v = key.values[eff]
                 meta.append({"crate": tag, "key": ".".join(key.path), "locale": loc, "assignment": a,
@@ -153,7 +171,9 @@ def probe(ctx, tag, project, assignments=2):
                              "effective_locale": eff, "inherits": project.inherits,
                              "defined_in": [l for l in project.locales if key.values[l][0] not in ("absent", "null")],
                              "source": source_text(v), "source_kind": v[0],
-                             "count": pc.count_of(key, a) if key.range_type else None,
+                             "count": pc.count_of(key, a) if (key.range_type or key.plural) else None,
+                             "plural": key.plural,
+                             "icu_category": oracle.get((loc, key.plural, pc.count_of(key, a))) if key.plural else None,
                              "args": pc.env_of(key, a), "component_tags": key.tags, "flavours": len(fl),
                              "outputs": {f: t for f, t in fl.items()} if len(set(fl.values())) > 1 else
                                         {"(all %d flavours)" % len(fl): next(iter(fl.values()))},
@@ -232,19 +252,22 @@ def run(ctx):
     rng = ctx.rng
     # inherits shapes: chain of depth 2 (fr-BE -> fr-CA -> fr), fork (de-AT, de-CH -> de), child of a non-default parent,
     # cycle (es-AR <-> es-MX), explicit inheritance from the default (pt-BR -> en), none (it: implicit default)
-    plans = [("ns", dict(n_keys=48, locales=["en", "fr", "fr-CA", "fr-BE", "de", "de-AT", "de-CH", "es-AR", "es-MX", "pt-BR", "it"],
+    # languages en/fr/ar/ru/pl: five different CLDR plural patterns (the rules written out in Runtime/CldrRules.v)
+    plans = [("ns", dict(n_keys=48, locales=["en", "fr", "fr-CA", "fr-BE", "ar", "ar-EG", "ar-SA", "ru-BY", "ru-UA", "en-GB", "pl"],
                          namespaces=["common", "home"], wide=True,
-                         inherits={"fr-CA": "fr", "fr-BE": "fr-CA", "de-AT": "de", "de-CH": "de", "es-AR": "es-MX",
-                                   "es-MX": "es-AR", "pt-BR": "en"}))]
+                         inherits={"fr-CA": "fr", "fr-BE": "fr-CA", "ar-EG": "ar", "ar-SA": "ar", "ru-BY": "ru-UA",
+                                   "ru-UA": "ru-BY", "en-GB": "en"}))]
     if not ctx.quick:
         many = ["l%s" % chr(97 + i) for i in range(18)]
         plans += [("flat", dict(n_keys=90, locales=["en", "fr", "fr-CA"], namespaces=None, wide=True, inherits={"fr-CA": "fr"})),
                   ("many", dict(n_keys=14, locales=many, namespaces=None, wide=False,
                                 inherits={"lc": "lb", "ld": "lc", "le": "le", "lf": "la", "lg": "lr", "lr": "lq"})),
-                  ("one", dict(n_keys=40, locales=["de"], namespaces=["only"], wide=True)),
-                  ("five", dict(n_keys=40, locales=["en", "fr", "de", "es", "it"], namespaces=None, wide=False,
-                                inherits={"fr": "de", "de": "fr", "es": "it"})),
-                  ("nogaps", dict(n_keys=40, locales=["en", "fr", "pt-BR"], namespaces=["common"], wide=True, gaps=False))]
+                  ("one", dict(n_keys=40, locales=["ar"], namespaces=["only"], wide=True)),
+                  ("five", dict(n_keys=40, locales=["ru", "fr", "en", "ar", "cy"], namespaces=None, wide=False,
+                                inherits={"fr": "en", "en": "fr", "ar": "cy"})),
+                  ("nogaps", dict(n_keys=40, locales=["fr", "en", "ja"], namespaces=["common"], wide=True, gaps=False)),
+                  ("nonlang", dict(n_keys=30, locales=["de", "es", "pt-BR", "it"], namespaces=None, wide=False,
+                                   inherits={"pt-BR": "es"}))]
     items, meta, problems, projects, pre = [], [], [], {}, ""
     for tag, kw in plans:
         proj = pc.gen_project(rng, **kw)
@@ -287,7 +310,7 @@ def run(ctx):
                                                                else "->inherited"))
         hist[k] = hist.get(k, 0) + 1
     nontrivial = {(m["source"], json.dumps(m["args"], sort_keys=True), m["locale"], m["key"]) for m in meta
-                  if m["source_kind"] == "range" or (m["source_kind"] == "str" and ("{{" in m["source"] or "<" in m["source"]))}
+                  if m["source_kind"] in ("range", "plural") or (m["source_kind"] == "str" and ("{{" in m["source"] or "<" in m["source"]))}
     core.write_evidence(ctx, {
         "evaluations": len(meta), "distinct_nontrivial": len(nontrivial),
         "flavour_outputs_compared": sum(m["flavours"] for m in meta),
@@ -310,8 +333,11 @@ def run(ctx):
         "a locale may leave a key (or a whole sub-key group) absent or null; the expected text is then the source of the first "
         "locale of its `inherits` walk that defines the key, else the default's - recomputed in Coq from the configuration "
         "(Parser/Merge.first_defined), independently of DefaultedLocales; ranges with integer and f32 counts are "
-        "included (which arm contains the count is recomputed independently in Coq from the written bounds); no plurals, "
-        "formatters or foreign keys in the probe values (C05/C18/C06)"])
+        "included (which arm contains the count is recomputed independently in Coq from the written bounds); plural keys "
+        "(cardinal and ordinal, form subsets containing `other`) are judged with the CLDR rules written out in Coq "
+        "(Runtime/CldrRules.v, en/fr/ru/ar/pl/ja/cy/he) for the locale ASKED for applied to the forms of the effective locale "
+        "(that is what both generated back-ends do), and icu_plurals' own category, printed by the probe, is cross-checked "
+        "against them; integer counts only; no formatters or foreign keys in the probe values (C18/C06)"])
 
 
 def replay(ctx, path):
